@@ -113,18 +113,20 @@ func (zset *ZSet) Range(start int, stop int, opt ZRangeOption) []*ZSetMember {
 	if (len(zset.members) - 1) < stop {
 		stop = len(zset.members) - 1
 	}
+	if opt.REV {
+		// With REV the indexes count from the highest score.
+		start, stop = len(zset.members)-1-stop, len(zset.members)-1-start
+	}
 	mems := []*ZSetMember{}
 	for n := start; n <= stop; n++ {
 		mems = append(mems, zset.members[n])
 	}
 
-	mems = limitZSetMembers(mems, opt)
-
-	if !opt.REV {
-		return mems
+	if opt.REV {
+		mems = reverseZSetMembers(mems)
 	}
 
-	return reverseZSetMembers(mems)
+	return limitZSetMembers(mems, opt)
 }
 
 func (zset *ZSet) RangeByScore(min float64, max float64, opt ZRangeOption) []*ZSetMember {
